@@ -534,11 +534,53 @@ def stepFixed (mx : Nat) (a : Arr) (L : Log) (op : Op) : Res :=
     { r with log := { r.log with dtor := r.log.dtor + 1 } }          -- ~valueCopy
   | none => step mx a L op
 
-/-- the second repair (`notes/C26_F3b_fix.diff`, applied in /repo as f70ab3a8) — together with `stepFixed`
-this is **the code as it is now**:
-* `push_back(T&&)` with an element argument that must reallocate: remember the element's index, grow, then
-  move from the element's *new* location;
-* `emplace_back` (when it reallocates) and `emplace`: build the new element in a temporary first. -/
+/-! ### the code as it is now (/repo after 06f34988, f70ab3a8 and ff598e36)
+
+* `push_back(T&&)` with an element argument that must reallocate: remember the element's index, grow,
+  then move from the element's *new* location;
+* `emplace_back` / `emplace` that must reallocate: allocate the new block, construct the new element
+  directly in its final slot there **from the still-live arguments**, then move the old elements around
+  it and free the old block (libstdc++'s scheme; no temporary);
+* `emplace` in the middle without reallocation: build a temporary first (the elements shift), then
+  make the gap and move the temporary in; appending with spare capacity constructs in place. -/
+
+/-- `emplace_back(args…)` -/
+def emplaceBack2 (mx : Nat) (a : Arr) (L : Log) (r : Ref) : Res :=
+  if a.cap = a.size then
+    match calcNewCapacityForGrowthBy mx a.cap 1 with
+    | none => ⟨a, L, true⟩
+    | some nc =>
+      let (v, L) := readRef a.cells L r.inPlace                 -- the old block is still alive
+      let (nw, L) := construct (allocN nc) L a.size v            -- new(newData+size()) T(args…)
+      let (nw, _, L) := moveRange nw a.cells L 0 0 a.size
+      ⟨{ cells := nw, size := a.size + 1 }, L, false⟩
+  else
+    let (v, L) := readRef a.cells L r.inPlace
+    let (c, L) := construct a.cells L a.size v
+    ⟨{ cells := c, size := a.size + 1 }, L, false⟩
+
+/-- `emplace(p, args…)` -/
+def emplace2 (mx : Nat) (a : Arr) (L : Log) (p : Nat) (r : Ref) : Res :=
+  if a.cap ≠ a.size then
+    if p = a.size then
+      let (v, L) := readRef a.cells L r.inPlace                 -- appending: nothing moves
+      let (c, L) := construct a.cells L a.size v
+      ⟨{ cells := c, size := a.size + 1 }, L, false⟩
+    else
+      let (v, L) := readRef a.cells L r.inPlace                 -- T newElement(args…);
+      let rs := insert mx a { L with ctor := L.ctor + 1 } p (.ext v)   -- insertGapAt; moveConstruct(gap, std::move(newElement))
+      { rs with log := { rs.log with dtor := rs.log.dtor + 1 } } -- ~newElement
+  else
+    match calcNewCapacityForGrowthBy mx a.cap 1 with
+    | none => ⟨a, L, true⟩
+    | some nc =>
+      let (v, L) := readRef a.cells L r.inPlace
+      let (nw, L) := construct (allocN nc) L p v                 -- new(newData+before) T(args…)
+      let (nw, old, L) := moveRange nw a.cells L 0 0 p
+      let (nw, _, L) := moveRange nw old L (p + 1) p (a.size - p)
+      ⟨{ cells := nw, size := a.size + 1 }, L, false⟩
+
+/-- **the current code**: `stepFixed` (the four `const T&` guards) plus the three rvalue/emplace repairs -/
 def stepFixed2 (mx : Nat) (a : Arr) (L : Log) : Op → Res
   | .pushBackMove (.slot i) =>
     if a.cap = a.size then
@@ -546,16 +588,8 @@ def stepFixed2 (mx : Nat) (a : Arr) (L : Log) : Op → Res
       | none => ⟨a, L, true⟩
       | some (a', L') => pushBackMove mx a' L' (.slot i)                 -- now in place: `std::move(data()[i])`
     else step mx a L (.pushBackMove (.slot i))
-  | .emplaceBack (.slot i) =>
-    if a.cap = a.size then
-      let (v, L) := read a.cells L i                                     -- T tmp(args…);
-      let r := step mx a { L with ctor := L.ctor + 1 } (.emplaceBack (.ext v))
-      { r with log := { r.log with dtor := r.log.dtor + 1 } }            -- ~tmp
-    else step mx a L (.emplaceBack (.slot i))
-  | .emplace p (.slot i) =>
-    let (v, L) := read a.cells L i                                       -- T tmp(args…);
-    let r := step mx a { L with ctor := L.ctor + 1 } (.emplace p (.ext v))
-    { r with log := { r.log with dtor := r.log.dtor + 1 } }
+  | .emplaceBack r => emplaceBack2 mx a L r
+  | .emplace p r => emplace2 mx a L p r
   | op => stepFixed mx a L op
 
 /-- operation sequences with the code as it is now (/repo after 06f34988 and f70ab3a8) -/
